@@ -165,7 +165,7 @@ Section Main.
     destruct op; cbn [agg_rule] in Hl; try (apply Some_true_inj in Hl);
       try (apply Hplain; [congruence | congruence | congruence | congruence | exact Hl | reflexivity]).
     - (* count_values *)
-      cbn [wf_agg] in Hwa. destruct p as [[| dst | | | | | | | |]|]; try discriminate.
+      cbn [wf_agg] in Hwa. destruct (lit_of p) as [dst|] eqn:Ep; [|discriminate].
       apply andb_true_iff in Hl. destruct Hl as [Hl _]. rewrite forallb_forall in Hl.
       split; cbn [walk_node].
       + intros s Hin. apply in_map_iff in Hin. destruct Hin as [s0 [<- _]]. unfold ret_ok. rewrite agg_src_ret. reflexivity.
@@ -173,7 +173,7 @@ Section Main.
         apply eqb_prop in Hkeep.
         apply mem_ls_spec in Hl. destruct Hl as [y [Hy He]].
         apply in_map_iff in Hy. destruct Hy as [z [<- Hz]]. destruct (I2 z Hz) as [s [Hin HC]].
-        exists (agg_src ACountValues w g (Some (EStr dst)) s). split; [apply in_map; exact Hin|].
+        exists (agg_src ACountValues w g p s). split; [apply in_map; exact Hin|].
         apply (agg_cons_count_values w g dst s z x); auto.
         * eapply walk_nd; eauto.
         * intros n Hn. specialize (He n). rewrite !get_without in He. simpl in He.
@@ -336,11 +336,12 @@ Section Main.
     - (* SCDst *)
       apply String.eqb_eq in Hk.
       destruct cs as [|C cs']; try discriminate. destruct C as [| |C| |]; try discriminate.
-      destruct args as [|a [|[| dst | | | | | | | |] rargs]]; try discriminate.
-      destruct R as [| |R0| |]; try discriminate. apply Some_true_inj in Hl.
+      destruct args as [|a [|a1 rargs]]; try discriminate.
+      destruct R as [| |R0| |]; try discriminate.
+      destruct (lit_val a1) as [dst|] eqn:Ed; [|discriminate]. apply Some_true_inj in Hl.
       apply andb_true_iff in Hl. destruct Hl as [Hl _].
       inversion Hc as [|? ? ? ? HSa Hr]; subst.
-      assert (Hina : In a (a :: EStr dst :: rargs)) by (left; reflexivity).
+      assert (Hina : In a (a :: a1 :: rargs)) by (left; reflexivity).
       destruct (IH a Hina (Hwa a Hina) _ HSa) as [I1 I2].
       split.
       + intros s Hin. unfold ret_ok. rewrite (Hret s Hin). reflexivity.
@@ -348,11 +349,11 @@ Section Main.
         assert (Hx' : In (ls_without x [dst]) (map (fun ls => ls_without ls [dst]) R0)) by (apply (in_map (fun ls => ls_without ls [dst])); exact Hx).
         destruct (subset_ls_spec _ _ Hl _ Hx') as [y [Hy He]].
         apply in_map_iff in Hy. destruct Hy as [z [<- Hz]]. destruct (I2 z Hz) as [s0 [Hs0 HC]].
-        exists (call_src f (a :: EStr dst :: rargs) (arg0_of fmod fpow (a :: EStr dst :: rargs)) s0). split.
-        * apply (walk_call_intro fmod fpow f ats (a :: EStr dst :: rargs) 0 a s0); auto.
+        exists (call_src f (a :: a1 :: rargs) (arg0_of fmod fpow (a :: a1 :: rargs)) s0). split.
+        * apply (walk_call_intro fmod fpow f ats (a :: a1 :: rargs) 0 a s0); auto.
         * intros l Hl'. destruct (string_dec l dst) as [->|Hnd].
           -- apply call_src_arg1_dst; auto. eapply walk_nd; eauto.
-          -- assert (Hle : le_perm s0 (call_src f (a :: EStr dst :: rargs) (arg0_of fmod fpow (a :: EStr dst :: rargs)) s0)).
+          -- assert (Hle : le_perm s0 (call_src f (a :: a1 :: rargs) (arg0_of fmod fpow (a :: a1 :: rargs)) s0)).
              { apply call_src_le. auto. }
              apply Hle. apply HC. specialize (He l). rewrite !get_without in He. simpl in He.
              destruct (String.eqb l dst) eqn:E; [apply String.eqb_eq in E; congruence|].
